@@ -4,7 +4,7 @@ mod props;
 fn main() {
     let ctx = engine::Ctx::from_args();
     match ctx.id.as_str() {
-        // "C30" => props::c30::run(ctx),
+        "C30" => props::c30::run(ctx),
         other => engine::harness_error(&format!("property {other} is not served by verif-disc")),
     }
 }
